@@ -413,6 +413,116 @@ def desugar_with(fn: ast.FunctionDef, method: T.Callable[[str], T.Optional[ast.F
     return new
 
 
+def inline_cm_with(fn: ast.FunctionDef, find_func: T.Callable[[str], T.Optional[ast.FunctionDef]],
+                   find_method: T.Callable[[str], T.Optional[ast.FunctionDef]]) -> ast.FunctionDef:
+    """Copy of `fn` in which `with cm(args): BODY` over a `@contextmanager` generator (module-level function or method of the same
+    class) with exactly one `yield` is replaced by what the decorator makes of it, exceptional exits included:
+        PRE; try: BODY except ...: H finally: F; POST      (when the generator is `PRE; try: yield; except ...: H; finally: F; POST`)
+        PRE; BODY; POST                                     (when the yield is a plain statement)
+    Arguments must be side-effect free (names, attributes, constants) and are substituted for the parameters.  POST is only allowed
+    when BODY cannot leave by return/break/continue.  Any other shape is left alone (the same object is returned when nothing changed)."""
+    import copy
+
+    def is_cm(g: ast.FunctionDef) -> bool:
+        return any((attr_chain(d) or '').split('.')[-1] == 'contextmanager' for d in g.decorator_list)
+
+    def target(c: ast.Call) -> T.Optional[T.Tuple[ast.FunctionDef, int]]:
+        ch = attr_chain(c.func) or ''
+        if isinstance(c.func, ast.Name):
+            g = find_func(c.func.id)
+            return (g, 0) if g is not None else None
+        if ch.startswith('self.') and ch.count('.') == 1:
+            g = find_method(ch[5:])
+            if g is not None:
+                return (g, 0 if any((attr_chain(d) or '') == 'staticmethod' for d in g.decorator_list) else 1)
+        return None
+
+    def plain(stmts: T.List[ast.stmt]) -> T.List[ast.stmt]:
+        return [x for x in stmts if not (isinstance(x, ast.Expr) and isinstance(x.value, ast.Constant))]
+    local_stores = {n.id for n in ast.walk(fn) if isinstance(n, ast.Name) and not isinstance(n.ctx, ast.Load)} | set(params_of(fn))
+
+    def expand_one(w: ast.With) -> T.Optional[T.List[ast.stmt]]:
+        if len(w.items) != 1 or w.items[0].optional_vars is not None or not isinstance(w.items[0].context_expr, ast.Call):
+            return None
+        c = w.items[0].context_expr
+        tg = target(c)
+        if tg is None or not is_cm(tg[0]):
+            return None
+        g, skip = tg
+        ps = params_of(g)[skip:]
+        b = bind_call(c, ps)
+        if b is None or any(a is None or not (isinstance(a, ast.Constant) or attr_chain(a)) for a in b) or g.args.vararg or g.args.kwarg or g.args.kwonlyargs:
+            return None
+        ys = [x for x in walk_no_nested(g) if isinstance(x, (ast.Yield, ast.YieldFrom))]
+        if len(ys) != 1 or not isinstance(ys[0], ast.Yield) or ys[0].value is not None:
+            return None
+        body = plain(g.body)
+
+        def is_yield(st: ast.stmt) -> bool:
+            return isinstance(st, ast.Expr) and st.value is ys[0]
+        at = [i for i, st in enumerate(body) if is_yield(st) or (isinstance(st, ast.Try) and len(plain(st.body)) == 1 and is_yield(plain(st.body)[0]))]
+        if len(at) != 1:
+            return None
+        pre, mid, post = body[:at[0]], body[at[0]], body[at[0] + 1:]
+        if any(isinstance(x, (ast.Return, ast.Yield, ast.YieldFrom)) for st in pre + post for x in ast.walk(st)):
+            return None
+        if post and any(isinstance(x, (ast.Return, ast.Break, ast.Continue)) for st in w.body for x in walk_no_nested(st)):
+            return None
+        g_locals = {n.id for n in ast.walk(g) if isinstance(n, ast.Name) and not isinstance(n.ctx, ast.Load)} | \
+                   {h.name for h in ast.walk(g) if isinstance(h, ast.ExceptHandler) and h.name}
+        if g_locals & (local_stores | set(ps)):
+            return None      # a local of the generator would capture a local of the caller
+
+        class Sub(ast.NodeTransformer):
+            def visit_Name(self, n: ast.Name) -> ast.AST:
+                if n.id in ps and isinstance(n.ctx, ast.Load):
+                    return ast.copy_location(copy.deepcopy(b[ps.index(n.id)]), n)  # type: ignore[index,arg-type]
+                return n
+        cp = lambda xs: [Sub().visit(copy.deepcopy(x)) for x in xs]
+        if isinstance(mid, ast.Try):
+            if any(isinstance(x, ast.Return) for part in (mid.handlers, mid.orelse, mid.finalbody) for st in part for x in ast.walk(st)):
+                return None
+            t = ast.Try(body=list(w.body), handlers=cp(mid.handlers), orelse=cp(mid.orelse), finalbody=cp(mid.finalbody))
+            return cp(pre) + [ast.copy_location(t, w)] + cp(post)
+        return cp(pre) + list(w.body) + cp(post)
+
+    class Tr(ast.NodeTransformer):
+        changed = False
+
+        def visit_With(self, w: ast.With) -> T.Any:
+            self.generic_visit(w)
+            r = expand_one(w)
+            if r is None:
+                return w
+            Tr.changed = True
+            return r
+
+        def visit_FunctionDef(self, n: ast.FunctionDef) -> T.Any:
+            if n is not new:
+                return n
+            self.generic_visit(n)
+            return n
+
+        def visit_Lambda(self, n: ast.Lambda) -> T.Any:
+            return n
+    if not any(isinstance(x, ast.With) for x in ast.walk(fn)):
+        return fn
+    new = copy.deepcopy(fn)
+    Tr.changed = False
+    Tr().visit(new)
+    if not Tr.changed:
+        return fn
+    ast.fix_missing_locations(new)
+    return new
+
+
+def normal_methods(mod: T.Any, cls: str) -> T.Dict[str, ast.FunctionDef]:
+    """Methods of `cls` with context-manager helpers inlined (inline_cm_with)."""
+    meths = mod.methods(cls)
+    ff = lambda n: mod.func(n) if mod.has_func(n) else None
+    return {n: inline_cm_with(f, ff, meths.get) for n, f in meths.items()}
+
+
 def emission(st: ast.AST, buffers: T.Set[str]) -> T.Optional[T.List[ast.AST]]:
     """The text expressions a printer statement emits: `self.result += X`, `self.result = self.result + X`, or - when `result`
     is a property joining a list of chunks - `self.<chunks>.append(X)` / `.extend([X, Y])` / `+= [X]`."""
@@ -520,7 +630,6 @@ def class_callables(cls: ast.ClassDef, find_class: T.Callable[[str], T.Optional[
             out.unread.discard(st.name)
         elif isinstance(st, ast.Assign) and len(st.targets) == 1 and isinstance(st.targets[0], ast.Name) and depth < 3:
             name, v = st.targets[0].id, st.value
-            n_before = out.get(name)
             if isinstance(v, (ast.Call, ast.Lambda, ast.Attribute, ast.Name, ast.Subscript, ast.IfExp)):
                 out.unread.add(name)
                 out.pop(name, None)
@@ -570,7 +679,12 @@ def fixed_spellings(repo: T.Any, model: NodeModel) -> T.Dict[str, str]:
 
     def find_class(n: str) -> T.Optional[ast.ClassDef]:
         return pm.cls(n) if pm.has_cls(n) else vm.cls(n) if vm.has_cls(n) else None
-    meths = class_callables(pm.cls('RawPrinter'), find_class)
+    def find_func(n: str) -> T.Optional[ast.FunctionDef]:
+        for m in (pm, vm):
+            if m.has_func(n):
+                return m.func(n)      # type: ignore[return-value]
+        return None
+    meths = class_callables(pm.cls('RawPrinter'), find_class, 0, find_func)
     for name, fn in meths.items():
         if not name.startswith('visit_') or name[6:] not in model.classes:
             continue
